@@ -20,6 +20,8 @@ import (
 	"time"
 	_ "time/tzdata"
 
+	"github.com/theory/sqljson/path"
+
 	"verif/internal/h"
 	"verif/internal/props"
 )
@@ -64,6 +66,7 @@ func main() {
 func worker(p *props.Prop) {
 	h.InstallHooks()
 	c := h.NewCtx(p.ID, *fTier, *fSeed, *fShard, *fNShards, *fWork)
+	installFaultSink(c)
 	msg := h.Guard(func() { p.Run(c) })
 	for k, v := range h.StatesSeen() {
 		c.Count(k, v)
@@ -80,6 +83,30 @@ func worker(p *props.Prop) {
 	if msg != "" {
 		fmt.Fprintln(os.Stderr, msg)
 		os.Exit(3)
+	}
+}
+
+// installFaultSink turns every H1/H2 hook-invariant failure, in whatever
+// property's workload it is observed, into a violation of clause "context"
+// (evaluation context not restored / not quiescent) carrying the offending call.
+func installFaultSink(c *h.Ctx) {
+	h.FaultSink = func(entry string, p *path.Path, doc any, o h.Opts, faults []string) {
+		kind := "other"
+		for _, k := range []string{"verbose", "current", "root", "innermostArraySize", "ignoreStructuralErrors", "baseObject", "useTZ"} {
+			if strings.Contains(faults[0], k) {
+				kind = k
+				break
+			}
+		}
+		db, _ := json.Marshal(doc)
+		vb, _ := json.Marshal(o.Vars)
+		txt := "?"
+		func() {
+			defer func() { _ = recover() }()
+			txt = p.String()
+		}()
+		cs := h.Case{Kind: "hook-fault", Path: txt, Doc: string(db), Vars: string(vb), Silent: o.Silent, TZ: o.TZ, Entry: entry, UseNum: true}
+		c.Violate("context", h.F("fault", kind), "hook invariant failed during "+entry+": "+strings.Join(faults, "; "), cs)
 	}
 }
 
@@ -107,6 +134,7 @@ func replay(p *props.Prop) {
 	h.InstallHooks()
 	_ = os.MkdirAll(*fWork, 0o755)
 	c := h.NewCtx(p.ID, rf.Tier, rf.Seed, 0, 1, *fWork)
+	installFaultSink(c)
 	cs := rf.Violation.Case
 	if rf.Violation.Shrunk != nil {
 		cs = *rf.Violation.Shrunk
